@@ -32,6 +32,6 @@ example : (Val.struct [([97], .some (.int 5)), ([98], .map [(.int (-3), .bool tr
     (Val.struct [([97], .some (.int 5)), ([98], .map [(.int (-3), .bool true)])]).toJ.render :=
   text_route_is_dom_route _
 example : (DJ.obj [([97], .int 1), ([98], .arr [.null])]).eq (DJ.obj [([98], .arr [.null]), ([97], .int 1)]) = true := by
-  simp [DJ.eq, DJ.depth, DJ.depthM, DJ.depthL, eqv, eqvKeys, eqvL, getFirst]
+  simp [DJ.eq, DJ.depth, DJ.depthM, DJ.depthL, eqv, eqvKeys, eqvL, getFirst, keysIn]
 
 end Sonic.Thm.C19
